@@ -355,7 +355,10 @@ def run(ctx: RunCtx) -> None:
                 if pad:
                     body = body + b"\0" * pad
                 if enc is not None:
-                    body = M.gzip_bytes(body) if enc == "gzip" else M.zstd_bytes(body)
+                    streaming = enc == "zstd" and bool(ch.choose(2, lab + ".zstd.streaming"))
+                    if streaming:
+                        ch.fault("enc=zstd:frame-without-content-size")
+                    body = M.gzip_bytes(body) if enc == "gzip" else M.zstd_bytes(body, streaming=streaming)
                     headers["Content-Encoding"] = enc
                     if "size=decoded" in muts and max_req is not None and len(body) > max_req:
                         pass  # still 413, on the wire as well
